@@ -368,6 +368,13 @@ def proof_gate(ctx, module, required):
     """Common first phase: build + audit.  On failure report the broken obligation (the caller may still search
     for a failing input afterwards)."""
     ok, problems = ctx.audit(module, required)
+    if ok and not ctx.quick():
+        # thorough tier: independent re-check of the compiled .olean of the property file
+        lok, llog = ctx.leanchecker(module)
+        ctx.cov["leanchecker"] = "ok" if lok else "FAILED"
+        if not lok:
+            ok = False
+            problems.append("leanchecker rejected %s: %s" % (module, llog))
     if not ok:
         for p in problems:
             ctx.log("PROOF PROBLEM:", p)
